@@ -4,6 +4,47 @@ import (
 	"voicheck/elen"
 )
 
+// documentedPanics is the frozen table of explicit panics that the library
+// documents or that guard impossible conditions the analysis cannot prove by
+// length facts alone.  Key: function + guard kind (derived from the innermost
+// dominating condition, not from source text).
+var documentedPanics = []elen.DocumentedPanic{
+	// --- documented argument validation of exported API ---------------------
+	{"(*curve.EdwardsPoint).MultiscalarMul", "len-rel", "documented: panics if len(scalars) != len(points)"},
+	{"(*curve.EdwardsPoint).MultiscalarMulVartime", "len-rel", "documented: panics if len(scalars) != len(points)"},
+	{"(*curve.EdwardsPoint).ExpandedMultiscalarMulVartime", "len-rel", "documented: panics on mismatched static/dynamic slice lengths"},
+	{"(*curve/scalar.Scalar).NonAdjacentForm", "param", "invalid recoding width w outside 2..8 (property statement: 'invalid recoding widths')"},
+	{"curve/scalar.ToRadix2wSizeHint", "param", "invalid radix width outside {6,7,8} (property statement: 'invalid recoding widths')"},
+	{"primitives/ed25519.Sign", "err:(primitives/ed25519.PrivateKey).Sign", "documented: panics if len(privateKey) is not PrivateKeySize"},
+	{"primitives/ed25519.VerifyWithOptions", "len", "documented: panics if len(publicKey) is not PublicKeySize"},
+	{"primitives/ed25519.VerifyWithOptions", "err:primitives/ed25519.verifyWithOptionsNoPanic", "documented: panics on bad pre-hash length, over-long context, incompatible or nil options"},
+	{"primitives/ed25519.VerifyExpandedWithOptions", "err:primitives/ed25519.verifyExpandedWithOptionsNoPanic", "documented: same contract as VerifyWithOptions"},
+	{"primitives/ed25519.newKeyFromSeed", "len", "documented on NewKeyFromSeed: panics if len(seed) is not SeedSize"},
+	{"primitives/ed25519.makeDom2", "len", "context longer than 255 bytes: documented option error, re-checked internally after (*Options).verify"},
+	{"primitives/ed25519/extra/cache.NewLRUCache", "param", "documented: cache capacity must be positive"},
+	{"primitives/ed25519/extra/ecvrf.Prove", "err:primitives/ed25519/extra/ecvrf.doProve", "private-key operand: bad ed25519.PrivateKey length (caller-owned key material)"},
+	{"primitives/ed25519/extra/ecvrf.Prove_v10", "err:primitives/ed25519/extra/ecvrf.doProve", "private-key operand: bad ed25519.PrivateKey length (caller-owned key material)"},
+	{"(*primitives/merlin.Transcript).AppendMessage", "len", "documented Merlin limit: label/message longer than 2^32-1 bytes"},
+	{"(*primitives/merlin.Transcript).ExtractBytes", "len", "documented Merlin limit: label/destination longer than 2^32-1 bytes"},
+	{"(*primitives/merlin.TranscriptRngBuilder).RekeyWithWitnessBytes", "len", "documented Merlin limit: label/witness longer than 2^32-1 bytes"},
+	{"(*primitives/sr25519.SigningContext).NewTranscriptHash", "state", "documented: hash digest size must be 32 or 64 bytes"},
+	{"(*primitives/sr25519.SecretKey).PublicKey", "state", "use of an uninitialised (zero value) SecretKey: API misuse, not input data"},
+	// --- entropy-source / XOF failures (not input data) ---------------------
+	{"(*primitives/ed25519.BatchVerifier).VerifyBatchOnly", "err:internal/scalar128.NewGenerator", "entropy-source failure"},
+	{"(*primitives/ed25519.BatchVerifier).VerifyBatchOnly", "err:(*internal/scalar128.Generator).SetScalarVartime", "entropy-source failure"},
+	{"(*primitives/sr25519.BatchVerifier).VerifyBatchOnly", "err:(*primitives/sr25519.SigningTranscript).witnessRng", "entropy-source failure"},
+	{"(*primitives/sr25519.BatchVerifier).VerifyBatchOnly", "err:io.ReadFull", "transcript RNG read failure (cannot fail: merlin RNG never errors)"},
+	{"(*primitives/sr25519.entry).doInit", "err:(*primitives/sr25519.SigningTranscript).witnessBytes", "entropy-source failure"},
+	{"(*primitives/sr25519.SigningContext).NewTranscriptXOF", "err:io.ReadFull", "caller-supplied XOF read failure"},
+	// --- internal invariants that length facts cannot prove -----------------
+	{"(*curve.EdwardsPoint).mulByPow2", "param", "internal: k > 0; callers pass 3, 4, 8 or the Pippenger window w in {6,7,8}"},
+	{"internal/elligator.SetEdwardsFromXY", "err:(*curve.EdwardsPoint).SetCompressedY", "internal invariant: the Elligator output is a curve point (numeric, not decided statically)"},
+	{"(*internal/strobe.Strobe).operate", "state", "use of an uninitialised STROBE state: merlin always initialises"},
+	{"(*internal/strobe.Strobe).operate", "param", "STROBE streaming misuse (flag mismatch with more=true); merlin passes constant flags"},
+	{"primitives/ed25519/extra/ecvrf.doVerify", "err:primitives/ed25519/extra/ecvrf.encodeToCurveH2cSuite", "internal invariant: hash-to-curve with the fixed 40-byte DST cannot fail"},
+	{"primitives/x25519.checkBasepoint", "state", "documented: the exported Basepoint variable was modified by the caller"},
+}
+
 func init() {
 	Registry["C19"] = func(c *Ctx) {
 		run := c.Run
@@ -13,11 +54,22 @@ func init() {
 		}
 		ri := run.Rule("ERR-i", "a return dominated by the failure edge of an error/length test reports failure", 60)
 		rii := run.Rule("ERR-ii", "no non-zero result is returned together with an error", 40)
+		rlen := run.Rule("LEN-const", "constant-bound accesses on parameter-derived slices are guarded by a length fact along every call chain from an exported entry", 60)
+		rpanic := run.Rule("PANIC-class", "every explicit panic is provably impossible, a guarded vector stub, init-time, or documented", 40)
 		for _, id := range c.Configs() {
 			p := c.Prog(id)
 			run.SetConfig(id)
 			st := elen.CheckErr(run, p, ri, rii, nil)
 			run.Sample(map[string]any{"config": id, "error-returning functions": st.Functions, "failure tests": st.Tests, "returns": st.Returns})
+			ent := elen.NewEntries(p)
+			lr := elen.CheckLen(run, p, rlen, ent.IsPublicEntry, nil)
+			run.Sample(map[string]any{"config": id, "slice accesses": lr.Accesses, "with constant requirement": lr.ConstAccesses, "discharged": lr.Discharged, "undecided (not claimed)": lr.Undecided})
+			sites := elen.CheckPanics(run, p, rpanic, documentedPanics, p.Obj("curve", "errVectorNotSupported"), ent)
+			if id == "amd64" || id == "purego" {
+				run.Extra["len_preconditions_"+id] = lr.Preconditions
+				run.Extra["len_undecided_by_function_"+id] = elen.Summarise(lr.UndecidedList)
+				run.Extra["panic_sites_"+id] = sites
+			}
 		}
 	}
 }
